@@ -98,7 +98,7 @@ func zzConn(mc *model.MC, id uint32, batchSize uint32) *conn {
 		readerSize:   4096,
 		writerSize:   4096,
 		rand:         rand.New(rand.NewSource(1)),
-		batchDelay:   200 * time.Microsecond,
+		batchDelay:   zzBatchDelay(),
 		batchSize:    batchSize,
 		maxBatchSize: new(uint32),
 		avgBatchData: new(uint64),
@@ -110,10 +110,49 @@ func zzConn(mc *model.MC, id uint32, batchSize uint32) *conn {
 	nc := zzNewPipe(mc)
 	c.conn = nc
 	c.rw = bufio.NewReadWriter(bufio.NewReaderSize(nc, 4096), bufio.NewWriterSize(nc, 4096))
+	if !zzDeferStart {
+		zzStart(c)
+	}
+	return c
+}
+
+// zzDeferStart: the two-caller harnesses queue both requests on the connection before its
+// goroutines start, so that the requests are certain to travel in one batch.
+var zzDeferStart bool
+
+func zzStart(c *conn) {
 	go c.recoveryMonitor()
 	go c.batcher()
 	go c.reader()
-	return c
+}
+
+// zzTwoCallers runs a and b concurrently through h so that both requests are queued on conn c
+// before its batcher starts.
+func zzTwoCallers(h Handler, c *conn, a, b *zzCmd) (zzOutcome, zzOutcome) {
+	var ga, gb zzOutcome
+	var wg sync.WaitGroup
+	wg.Add(2)
+	// a's request is queued first, then b's (native goroutine start order is not FIFO)
+	go func() { defer wg.Done(); ga = zzRun(h, a) }()
+	for i := 0; i < 200 && len(c.reqchan) < 1; i++ {
+		rt.Gosched()
+	}
+	go func() { defer wg.Done(); gb = zzRun(h, b) }()
+	for i := 0; i < 200 && len(c.reqchan) < 2; i++ {
+		rt.Gosched()
+	}
+	zzStart(c)
+	wg.Wait() // a caller left waiting for ever shows as a deadlock here
+	return ga, gb
+}
+
+// zzBatchDelay: natively long enough for two callers started together to land in one batch
+// (under the symbolic executor the timer fires when nothing else can run).
+func zzBatchDelay() time.Duration {
+	if rt.Symbolic() {
+		return 200 * time.Microsecond
+	}
+	return 30 * time.Millisecond
 }
 
 func zzHandler(conns []*conn) Handler {
@@ -337,20 +376,19 @@ func ZZBatchedStep() {
 func ZZBatchedTwoCallers() {
 	nk := 3
 	pool, direct, _ := zzStores(nk)
-	h := zzHandler([]*conn{zzConn(pool, 0, 2)})
+	zzDeferStart = true
+	c := zzConn(pool, 0, 2)
+	zzDeferStart = false
+	h := zzHandler([]*conn{c})
 	d := std.NewHandler(direct)
 	a, b := zzNewCmd("a.", 2, 2), zzNewCmd("b.", 1, 1)
 	// caller B works on the third key only
 	for j := range b.keys {
 		b.keys[j] = model.Keys[2]
 	}
-	var ga, gb zzOutcome
-	var wg sync.WaitGroup
-	wg.Add(2)
-	go func() { defer wg.Done(); ga = zzRun(h, a) }()
-	go func() { defer wg.Done(); gb = zzRun(h, b) }()
-	wg.Wait()
+	ga, gb := zzTwoCallers(h, c, a, b)
 	rt.Reach("both-done")
+	rt.Assert("c06-both-requests-travelled-in-one-batch", atomic.LoadUint64(c.avgBatchData) == 1<<32|2)
 	wa := zzRun(d, a)
 	wb := zzRun(d, b)
 	zzSameOutcome("c06-caller-a", a.kind, ga, wa)
@@ -469,6 +507,53 @@ func ZZBatchedConnLoss() {
 	}
 	// the pool serves normally afterwards
 	probe := &zzCmd{kind: bGet, keys: [][]byte{model.Keys[0]}, opaques: []uint32{77}, quiets: []bool{false}}
+	g2 := zzRun(h, probe)
+	w2 := zzRun(d, probe)
+	rt.Reach("pool-serves-again")
+	zzSameOutcome("c13-after-recovery", bGet, g2, w2)
+}
+
+// ZZBatchedConnLossTwo (C13): two callers share a batch; the first one's single-key command is
+// answered (possibly with a not-found / exists status), then the connection is cut before the
+// second one's reply. Both callers get an outcome (nobody waits for ever), the second one an
+// error or its own correct data, and the pool serves again afterwards.
+func ZZBatchedConnLossTwo() {
+	nk := 2
+	root, direct, _ := zzStores(nk)
+	first := root.NewConn("first")
+	first.FaultAt = 1 + rt.Choice("fault.at", 2)
+	first.FaultKind = model.FaultCloseBeforeReply + rt.Choice("fault.kind", 3)
+	if first.FaultKind == model.FaultCutReply {
+		first.CutAt = []int{1, 23, 24, 26}[rt.Choice("fault.cut", 4)]
+	}
+	sock := "fake"
+	if rt.Symbolic() {
+		rt.Subst("net.Dial", func(network, address string) (net.Conn, error) {
+			return zzNewPipe(root.NewConn("reconnected")), nil
+		})
+	} else {
+		sock = zzServe(root)
+	}
+	zzDeferStart = true
+	c := zzConn(first, 0, 2)
+	zzDeferStart = false
+	c.sock = sock
+	h := zzHandler([]*conn{c})
+	d := std.NewHandler(direct)
+	ka := []int{bDelete, bTouch, bAdd, bReplace, bGat}
+	a := &zzCmd{kind: ka[rt.Choice("a.cmd", len(ka))], keys: [][]byte{model.Keys[0]}, opaques: []uint32{21}, quiets: []bool{false}, data: rt.Bytes("a.data", 1), flags: rt.U32("a.flags"), ttl: 100}
+	b := &zzCmd{kind: bGet, keys: [][]byte{model.Keys[1]}, opaques: []uint32{22}, quiets: []bool{false}}
+	ga, gb := zzTwoCallers(h, c, a, b)
+	rt.Reach("both-callers-returned")
+	if first.Faulted {
+		rt.Reach("connection-was-cut")
+	}
+	wb := zzRun(d, b)
+	if !gb.fatal {
+		zzSameOutcome("c13-second-caller", bGet, gb, wb)
+	}
+	_ = ga
+	probe := &zzCmd{kind: bGet, keys: [][]byte{model.Keys[1]}, opaques: []uint32{77}, quiets: []bool{false}}
 	g2 := zzRun(h, probe)
 	w2 := zzRun(d, probe)
 	rt.Reach("pool-serves-again")
